@@ -33,4 +33,7 @@ theorem holds_server_up_until_quit (h : List Lifecycle.ConnEv) :
     Lifecycle.serverUp Facts.rpcServer h = !h.contains .quit :=
   server_up_until_quit _ server_facts_good h
 
+theorem holds_crashed_target_not_found (socketFileLeft : Bool) : Lifecycle.reattachNotFound Facts.reattachProbe socketFileLeft = true :=
+  Props.C15.crashed_target_not_found _ (by decide) socketFileLeft
+
 end GoPlugin.Instance.C15
